@@ -92,6 +92,7 @@ type Walker struct {
 	abortKind string
 	loopCond  bool
 	maps      []*Term // maps allocated on this path
+	Covered   map[*ssa.BasicBlock]bool // blocks entered on any path of the current Walk
 	Exploded  bool
 	Finite    bool // exact region splitting for compound expressions of one small-domain leaf (finite.go)
 }
@@ -119,6 +120,9 @@ func (w *Walker) Walk(fn *ssa.Function, args []*Term, bindings []*Term) []Path {
 	var paths []Path
 	w.script = nil
 	w.Exploded = false
+	if w.Covered == nil {
+		w.Covered = map[*ssa.BasicBlock]bool{}
+	}
 	for {
 		w.pos = 0
 		w.alts = w.alts[:0]
@@ -605,6 +609,9 @@ func (w *Walker) exec(fn *ssa.Function, args []*Term, bindings []*Term, depth in
 	b := fn.Blocks[0]
 	for {
 		fr.visits[b]++
+		if w.Covered != nil {
+			w.Covered[b] = true
+		}
 		if fr.visits[b] > w.LoopFuel+1 {
 			w.abort("truncated", fmt.Sprintf("loop bound %d reached in %s block %d", w.LoopFuel, fn.Name(), b.Index))
 		}
